@@ -338,6 +338,57 @@ fn cmd_content(max_len: usize) {
     println!("{{\"cmd\":\"content\",\"bound\":\"show-text strings of length <= {max_len} over a 12-character alphabet plus 7 fixed strings; 16 f64 setters x 6 special values\",\"evaluated\":{},\"disagreements\":[{}]}}", evaluated, bad.join(","));
 }
 
+// C24 Eb: grayscale / RGB PNG files (filter types 0-4, bit depths 1,2,4,8) built by a reference encoder -> Image::from_png_data
+fn png_chunk(t: &[u8; 4], d: &[u8]) -> Vec<u8> {
+    let mut c = (d.len() as u32).to_be_bytes().to_vec(); c.extend_from_slice(t); c.extend_from_slice(d);
+    let mut crc = flate2::Crc::new(); crc.update(t); crc.update(d);
+    c.extend_from_slice(&crc.sum().to_be_bytes()); c
+}
+fn paeth_ref(a: u8, b: u8, c: u8) -> u8 { let p = a as i32 + b as i32 - c as i32; let (pa, pb, pc) = ((p - a as i32).abs(), (p - b as i32).abs(), (p - c as i32).abs()); if pa <= pb && pa <= pc { a } else if pb <= pc { b } else { c } }
+fn png_encode(w: u32, h: u32, depth: u8, ctype: u8, rows: &[Vec<u8>], filter: u8, bpp: usize) -> Vec<u8> {
+    use std::io::Write;
+    let mut raw = vec![];
+    for (y, r) in rows.iter().enumerate() {
+        raw.push(filter);
+        for i in 0..r.len() {
+            let a = if i >= bpp { r[i - bpp] } else { 0 };
+            let b = if y > 0 { rows[y - 1][i] } else { 0 };
+            let c = if y > 0 && i >= bpp { rows[y - 1][i - bpp] } else { 0 };
+            let pred = match filter { 0 => 0, 1 => a, 2 => b, 3 => ((a as u16 + b as u16) / 2) as u8, _ => paeth_ref(a, b, c) };
+            raw.push(r[i].wrapping_sub(pred));
+        }
+    }
+    let mut z = flate2::write::ZlibEncoder::new(Vec::new(), flate2::Compression::default());
+    z.write_all(&raw).unwrap(); let comp = z.finish().unwrap();
+    let mut out = b"\x89PNG\r\n\x1a\n".to_vec();
+    let mut ihdr = w.to_be_bytes().to_vec(); ihdr.extend_from_slice(&h.to_be_bytes()); ihdr.extend_from_slice(&[depth, ctype, 0, 0, 0]);
+    out.extend(png_chunk(b"IHDR", &ihdr)); out.extend(png_chunk(b"IDAT", &comp)); out.extend(png_chunk(b"IEND", &[])); out
+}
+fn cmd_png_grid() {
+    let mut evaluated = 0u64; let mut bad: Vec<String> = vec![]; let mut subbyte_rejected = 0u64; let mut subbyte_total = 0u64;
+    let mut seed = 12345u32; let mut rnd = || { seed = seed.wrapping_mul(1103515245).wrapping_add(12345); (seed >> 16) as u8 };
+    for (ctype, channels) in [(0u8, 1usize), (2u8, 3usize)] { for depth in [1u8, 2, 4, 8] { if ctype == 2 && depth != 8 { continue; }
+        for w in [1u32, 2, 3, 7, 8, 9, 16, 17] { for h in [1u32, 2, 3] { for filter in 0u8..=4 {
+            evaluated += 1;
+            let row_bytes = ((w as usize * depth as usize * channels) + 7) / 8;
+            let bpp = std::cmp::max(1, depth as usize * channels / 8);
+            let rows: Vec<Vec<u8>> = (0..h).map(|_| (0..row_bytes).map(|_| rnd()).collect()).collect();
+            // expected 8-bit samples per pixel, as an independent decoder reports them (sub-byte samples scaled to 0..255)
+            let mut want: Vec<u8> = vec![];
+            for r in &rows { for x in 0..(w as usize * channels) {
+                let v = if depth == 8 { r[x] } else { let bit = x * depth as usize; let byte = r[bit / 8]; let sh = 8 - depth as usize - (bit % 8); let s = (byte >> sh) & ((1u8 << depth) - 1); (s as u16 * 255 / ((1u16 << depth) - 1)) as u8 };
+                want.push(v);
+            } }
+            let file = png_encode(w, h, depth, ctype, &rows, filter, bpp);
+            let r = panic::catch_unwind(|| oxidize_pdf::graphics::Image::from_png_data(file).map(|im| im.data().to_vec()).map_err(|e| e.to_string()));
+            let ok = matches!(&r, Ok(Ok(d)) if *d == want);
+            if depth < 8 { subbyte_total += 1; if !ok { subbyte_rejected += 1; continue; } }
+            if !ok && bad.len() < 5 { bad.push(format!("{{\"w\":{w},\"h\":{h},\"depth\":{depth},\"ctype\":{ctype},\"filter\":{filter},\"got\":{}}}", js(&format!("{:?}", r.map_err(|_| "PANIC")).chars().take(120).collect::<String>()))); }
+        } } }
+    } }
+    println!("{{\"cmd\":\"png-grid\",\"bound\":\"gray depths 1,2,4,8 and RGB8; widths 1,2,3,7,8,9,16,17; heights 1-3; filter types 0-4; pseudo-random samples\",\"evaluated\":{},\"disagreements\":[{}],\"subbyte_total\":{},\"subbyte_wrong\":{}}}", evaluated, bad.join(","), subbyte_total, subbyte_rejected);
+}
+
 fn main() {
     let args: Vec<String> = std::env::args().collect();
     panic::set_hook(Box::new(|_| {}));
@@ -347,6 +398,13 @@ fn main() {
         Some("a85hex") => cmd_a85hex(args.get(2).and_then(|s| s.parse().ok()).unwrap_or(5)),
         Some("a85hex-roundtrip") => cmd_a85hex_roundtrip(args.get(2).and_then(|s| s.parse().ok()).unwrap_or(4)),
         Some("fmt") => cmd_fmt(),
+        Some("png-grid") => cmd_png_grid(),
+        Some("png") => {
+            // png <hex of a PNG file>: Image::from_png_data on it
+            let data: Vec<u8> = (0..args[2].len() / 2).map(|i| u8::from_str_radix(&args[2][2 * i..2 * i + 2], 16).unwrap()).collect();
+            let r = panic::catch_unwind(|| oxidize_pdf::graphics::Image::from_png_data(data).map(|im| (im.width(), im.height(), im.data().to_vec())).map_err(|e| e.to_string()));
+            println!("{{\"cmd\":\"png\",\"result\":{}}}", js(&format!("{:?}", r.map_err(|_| "PANIC"))));
+        }
         Some("rotate") => {
             // rotate <Rotate value>: minimal one-page PDF with that /Rotate, then rotate_all_pages(.., Clockwise90)
             let rot = args[2].clone();
